@@ -1341,8 +1341,7 @@ class Interp:
                 return self.eval(f.node.body, fr)
             finally:
                 self.call_depth -= 1
-        if any(isinstance(n, (ast.Yield, ast.YieldFrom)) for n in ast.walk(f.node)
-               if n is not f.node):
+        if any(isinstance(n, (ast.Yield, ast.YieldFrom)) for n in self.repo.own_nodes(f.node)):
             return self.lib.make_generator(self, f, args, kwargs, node)
         self.engine.inlined.add(f.qualname)
         fr = Frame(f, f.module, f.cls, parent=f.closure)
